@@ -28,6 +28,13 @@ package main
 //@   assert [C18] failure_exits_1: at die#2: $exitcode == 1 && $err != nil
 //@   assert [C18] returns_normally_only_on_success: err == nil
 //
+// safeClose: closing must not lose an error that is already pending (a failed dump stays a failure).
+//@ func safeClose
+//@   inline
+//@   requires f != nil && errp != nil
+//@   ensures [C18] a_pending_error_is_kept: old(*errp) != nil ==> *errp == old(*errp)
+//@   assert [C18] else_the_close_error_is_reported: old(*errp) == nil ==> *errp == cerr
+//
 //@ func open
 //@   ensures result1 == nil ==> result0 != nil
 //
